@@ -749,12 +749,28 @@ def _cli_mixed_eval(c):
         shutil.rmtree(d, ignore_errors=True)
 
 
+CLI_MIXED_TOL = {(): (None, 0.0), ("-atol", "0.01"): (None, 0.01), ("-atol", "v:0.01"): (None, 0.01),
+                 ("-rtol", "0", "-atol", "0.01"): (0.0, 0.01), ("-atol", "1e-3*max"): (None, "max"),
+                 ("-rtol", "v:1e-3"): (1e-3, 0.0), ("-atol", "0.01", "-rtol", "1e-9"): (1e-9, 0.01)}
+
+
+def _cli_mixed_want(c):
+    """exit 0 demanded?  The documented formula on every row with the tolerances the options select for column `v`
+    (absent: rel = eps(float64), abs = 0; `t*max`: t times the largest magnitude in either file)"""
+    rel, abs_ = CLI_MIXED_TOL[tuple(c["options"])]
+    rel = 2.0 ** -52 if rel is None else rel
+    if abs_ == "max":
+        abs_ = rn64(Fraction(1e-3) * Fraction(max(max(abs(float(x)) for x in c["ints"]), max(abs(x) for x in c["floats"]))))
+    return all(predio.float_formula(float(x), y, rel, abs_) for x, y in zip(c["ints"], c["floats"]))
+
+
 def run_cli_mixed(ctx, n):
     """the command line on a MIXED pair: a CSV column typed integer in one file (`3`) against the same column typed float
     in the other (`3.0`, `3.0009765625`), the integer file given first and second; deviation none / within / beyond the
-    tolerance selected by the options (general, per-field, `t*max`, none at all).  Law: the exit class does not depend on
-    the order of the files.  Expectation (one side holds floats -> fuzzy formula; values far from every threshold):
-    exit 0 iff no deviation, or a deviation within a tolerance that was given."""
+    tolerance selected by the options (general, per-field, `t*max`, relative only, none at all).  Law: the exit class does
+    not depend on the order of the files.  Expectation (one side holds floats -> fuzzy formula): exit 0 iff every row
+    satisfies the documented formula with the tolerances the options select (`_cli_mixed_want`; deviations 2^-10 / 0.5 stay
+    > 2 % away from every threshold that can occur)."""
     rng = ctx.rng
     for _ in range(n):
         rows = rng.randint(1, 5)
@@ -768,7 +784,7 @@ def run_cli_mixed(ctx, n):
                           ["-rtol", "v:1e-3"], ["-atol", "0.01", "-rtol", "1e-9"]])
         c = {"kind": "cli-mixed", "ints": ints, "floats": fl, "options": opt, "deviation": dev}
         out = _cli_mixed_eval(c)
-        want0 = dev == "none" or (dev == "within" and bool(opt))
+        want0 = _cli_mixed_want(c)
         ctx.case(("cli-mixed", tuple(ints), tuple(fl), tuple(opt)), nontrivial=dev != "none",
                  tags=["p6-cli-mixed", "cli-mixed-" + dev, "cli-mixed-opt-" + ("none" if not opt else opt[0] + ("-field" if ":" in opt[1] else "-max" if "max" in opt[1] else "")),
                        f"cli-mixed-exits-{out['int-first']}/{out['float-first']}"], sample=None)
@@ -1060,9 +1076,9 @@ def run(ctx):
     run_history(ctx, ctx.scale(150, 10000))
     run_shape_mix(ctx, ctx.scale(300, 20000))
     if not P6G_OFF:
-        run_small_floats(ctx, ctx.scale(300, 20000))
+        run_small_floats(ctx, ctx.scale(300, 10000))
         run_mixed_dtypes(ctx, ctx.scale(500, 30000))
-        run_operand_reuse(ctx, ctx.scale(300, 15000))
+        run_operand_reuse(ctx, ctx.scale(300, 10000))
         run_scaled_shapes(ctx, ctx.scale(300, 15000), [1001, 70001] if ctx.tier == "quick" else [1001, 4097, 70001, 300007])
         run_history_arrays(ctx, ctx.scale(80, 4000))
         run_cli_mixed(ctx, ctx.scale(40, 1500))
@@ -1111,7 +1127,7 @@ def replay(ctx, payload):
             return 0
     if c.get("kind") == "cli-mixed":
         out = _cli_mixed_eval(c)
-        want0 = c["deviation"] == "none" or (c["deviation"] == "within" and bool(c["options"]))
+        want0 = _cli_mixed_want(c)
         print(f"replay fieldcompare file <int column> <float column> {' '.join(c['options'])}: exits {out}; demanded: equal classes, "
               f"{'0' if want0 else 'non-zero'}")
         if (out["int-first"] == 0) != (out["float-first"] == 0) or (out["int-first"] == 0) != want0:
